@@ -115,3 +115,39 @@ def specOf (idx : Nat) : Op → Child
   | .pushAsyncCallback f => ⟨.callable (.exitWrapper f), true, .pushAsyncCallback, false, idx⟩
 
 end SS.ExitStack
+
+namespace SS.ExitStack
+
+/-! ### The stack over time: registration, `pop_all()`, and unwinding (`__exit__` pops callbacks LIFO) -/
+
+/-- One event in the life of an exit stack. -/
+inductive Ev
+  | reg (op : Op)     -- any of the registration calls
+  | popAll            -- `new = stack.pop_all()`: the callbacks move to a fresh stack, this one is left empty
+  | popOne            -- the exiting stack pops its last callback (`_exit_callbacks.pop()`) before calling it
+  deriving DecidableEq, Repr
+
+structure St where
+  cur : List Entry      -- `_exit_callbacks` of the stack itself
+  moved : List Entry    -- `_exit_callbacks` of the stack most recently returned by `pop_all()`
+  deriving DecidableEq, Repr
+
+def St.init : St := ⟨[], []⟩
+
+def stepEv (s : St) : Ev → St
+  | .reg op => { s with cur := s.cur ++ [register op] }
+  | .popAll => { cur := [], moved := s.cur }
+  | .popOne => { s with cur := s.cur.dropLast }
+
+def runEvs (evs : List Ev) : St := evs.foldl stepEv St.init
+
+/-- The specification on the registration calls alone: which of them are still pending on the stack … -/
+def liveStep (l : List Op × List Op) : Ev → List Op × List Op
+  | .reg op => (l.1 ++ [op], l.2)
+  | .popAll => ([], l.1)
+  | .popOne => (l.1.dropLast, l.2)
+
+/-- … `(pending on the stack, pending on the stack pop_all() returned)`. -/
+def liveOps (evs : List Ev) : List Op × List Op := evs.foldl liveStep ([], [])
+
+end SS.ExitStack
